@@ -45,6 +45,7 @@ type Prog struct {
 	SSAPkg   map[string]*ssa.Package // by import path
 	byPath   map[string]*packages.Package
 	srcFuncs []*ssa.Function // every source-level function of the module incl. anonymous ones
+	Looked   map[string]bool // role names the rules asked for (anchors)
 	LoadSecs float64
 
 	cgCHA *callgraph.Graph
@@ -193,6 +194,21 @@ func (p *Prog) SrcFuncs(tests bool) []*ssa.Function {
 		if !tests && p.IsTestPos(fn.Pos()) {
 			continue
 		}
+		if IsAbsorbed(fn) {
+			continue // analysed as part of its callers (absorb.go): Instrs of each caller visits its body
+		}
+		out = append(out, fn)
+	}
+	return out
+}
+
+// AllSrcFuncs is SrcFuncs including the helpers that are analysed as part of their callers.
+func (p *Prog) AllSrcFuncs(tests bool) []*ssa.Function {
+	var out []*ssa.Function
+	for _, fn := range p.srcFuncs {
+		if !tests && p.IsTestPos(fn.Pos()) {
+			continue
+		}
 		out = append(out, fn)
 	}
 	return out
@@ -280,6 +296,10 @@ func (p *Prog) Func(q string) *ssa.Function {
 
 // FuncObj resolves the types object for a role name (see Func).
 func (p *Prog) FuncObj(q string) *types.Func {
+	if p.Looked == nil {
+		p.Looked = map[string]bool{}
+	}
+	p.Looked[q] = true
 	dot := strings.LastIndex(q, "/")
 	rest := q
 	dir := ""
